@@ -85,14 +85,28 @@ package binary
 //@   ensures(val) err == nil ==> (result <==> rin(sr.reader)[old(rpos(sr.reader))] == 1)
 //@   ensures(valid) validSR(sr)
 
+//@ contract (*StreamReader).readBytes
+//@   props C02 C03 C12 C13
+//@   nopanic
+//@   requires validSR(sr) && length > 0
+//@   let p0 = rpos(sr.reader)
+//@   modifies sr.buffer, rpos(sr.reader)
+//@   alloc[C13] n <= 1048576
+//@   ensures(len) err == nil ==> len(result) == int64(length) && result != nil
+//@   ensures(bytes) err == nil ==> forall(k, 0, int64(length), result[k] == rin(sr.reader)[p0 + k])
+//@   ensures(pos) err == nil ==> rpos(sr.reader) == p0 + int64(length)
+//@   ensures(mono) rpos(sr.reader) >= p0
+//@   ensures(valid) validSR(sr)
+
 //@ contract (*StreamReader).ReadBinary
 //@   props C02 C03 C13
 //@   nopanic
 //@   requires validSR(sr)
 //@   let p0 = rpos(sr.reader)
 //@   modifies sr.buffer, rpos(sr.reader)
-//@   alloc n <= 1048576
+//@   alloc[C13] n <= 1048576
 //@   ensures(len) err == nil ==> int32(be32at(rin(sr.reader), p0)) >= 0 && len(result) == int64(int32(be32at(rin(sr.reader), p0)))
+//@   ensures(bytes) err == nil ==> forall(k, 0, len(result), result[k] == rin(sr.reader)[p0 + 4 + k])
 //@   ensures(pos) err == nil ==> rpos(sr.reader) == p0 + 4 + len(result)
 //@   ensures(nonnil) err == nil ==> result != nil
 //@   ensures(mono) rpos(sr.reader) >= p0
@@ -410,3 +424,101 @@ package binary
 //@   ensures(bytes) err == nil ==> int8(wout(sw.writer)[q0]) == m.KeyType && int8(wout(sw.writer)[q0 + 1]) == m.ValueType && int64(int32(be32at(wout(sw.writer), q0 + 2))) == m.Length
 //@   ensures(prefix) prefixKept(sw)
 //@   ensures(valid) validSW(sw)
+
+// ---------------------------------------------------------------------------
+// Envelopes (C12).
+
+// WriteString / ReadString go through unsafe string<->[]byte casts; their
+// contracts are assumed (trusted): the cast preserves length and bytes.
+//@ contract (*StreamWriter).WriteString
+//@   trusted
+//@   requires validSW(sw) && len(s) <= 2147483647
+//@   let q0 = wlen(sw.writer)
+//@   modifies sw.buffer, wout(sw.writer), wlen(sw.writer)
+//@   ensures err == nil ==> wlen(sw.writer) == q0 + 4 + len(s)
+//@   ensures err == nil ==> int64(int32(be32at(wout(sw.writer), q0))) == len(s)
+//@   ensures err == nil ==> forall(k, 0, len(s), wout(sw.writer)[q0 + 4 + k] == s[k])
+//@   ensures prefixKept(sw)
+//@   ensures validSW(sw)
+//@   ensures wlen(sw.writer) >= q0
+
+//@ contract (*StreamReader).ReadString
+//@   trusted
+//@   requires validSR(sr)
+//@   let p0 = rpos(sr.reader)
+//@   modifies sr.buffer, rpos(sr.reader)
+//@   ensures err == nil ==> int32(be32at(rin(sr.reader), p0)) >= 0 && len(result) == int64(int32(be32at(rin(sr.reader), p0)))
+//@   ensures err == nil ==> rpos(sr.reader) == p0 + 4 + len(result)
+//@   ensures err == nil ==> forall(k, 0, len(result), result[k] == rin(sr.reader)[p0 + 4 + k])
+//@   ensures rpos(sr.reader) >= p0
+//@   ensures validSR(sr)
+
+//@ contract (*StreamWriter).WriteEnvelopeBegin
+//@   props C12
+//@   nopanic
+//@   requires validSW(sw) && eh.Type >= 0 && len(eh.Name) <= 2147483647
+//@   let q0 = wlen(sw.writer)
+//@   modifies sw.buffer, wout(sw.writer), wlen(sw.writer)
+//@   ensures(len) err == nil ==> wlen(sw.writer) == q0 + 12 + len(eh.Name)
+//@   ensures(version) err == nil ==> be32at(wout(sw.writer), q0) & 4294901760 == 2147549184
+//@   ensures(type) err == nil ==> int8(be32at(wout(sw.writer), q0)) == eh.Type
+//@   ensures(namelen) err == nil ==> int64(int32(be32at(wout(sw.writer), q0 + 4))) == len(eh.Name)
+//@   ensures(name) err == nil ==> forall(k, 0, len(eh.Name), wout(sw.writer)[q0 + 8 + k] == eh.Name[k])
+//@   ensures(seqid) err == nil ==> int32(be32at(wout(sw.writer), q0 + 8 + len(eh.Name))) == eh.SeqID
+//@   ensures(prefix) prefixKept(sw)
+
+//@ contract (*StreamWriter).WriteLegacyEnvelopeBegin
+//@   props C12
+//@   nopanic
+//@   requires validSW(sw) && len(eh.Name) <= 2147483647
+//@   let q0 = wlen(sw.writer)
+//@   modifies sw.buffer, wout(sw.writer), wlen(sw.writer)
+//@   ensures(len) err == nil ==> wlen(sw.writer) == q0 + 9 + len(eh.Name)
+//@   ensures(namelen) err == nil ==> int64(int32(be32at(wout(sw.writer), q0))) == len(eh.Name)
+//@   ensures(name) err == nil ==> forall(k, 0, len(eh.Name), wout(sw.writer)[q0 + 4 + k] == eh.Name[k])
+//@   ensures(type) err == nil ==> int8(wout(sw.writer)[q0 + 4 + len(eh.Name)]) == eh.Type
+//@   ensures(seqid) err == nil ==> int32(be32at(wout(sw.writer), q0 + 5 + len(eh.Name))) == eh.SeqID
+//@   ensures(prefix) prefixKept(sw)
+
+//@ contract (*StreamReader).readStrictEnvelope
+//@   props C12
+//@   nopanic
+//@   requires validSR(sw)
+//@   let p0 = rpos(sw.reader)
+//@   modifies sw.buffer, rpos(sw.reader)
+//@   ensures(version) err == nil ==> uint32(ver) & 4294901760 == 2147549184
+//@   ensures(type) err == nil ==> result.Type == int8(ver)
+//@   ensures(namelen) err == nil ==> int32(be32at(rin(sw.reader), p0)) >= 0 && len(result.Name) == int64(int32(be32at(rin(sw.reader), p0)))
+//@   ensures(name) err == nil ==> forall(k, 0, len(result.Name), result.Name[k] == rin(sw.reader)[p0 + 4 + k])
+//@   ensures(pos) err == nil ==> rpos(sw.reader) == p0 + 4 + len(result.Name)
+//@   ensures(mono) rpos(sw.reader) >= p0
+//@   ensures(valid) validSR(sw)
+
+//@ contract (*StreamReader).readNonStrictEnvelope
+//@   props C12 C13
+//@   nopanic
+//@   requires validSR(sw) && length > 0
+//@   let p0 = rpos(sw.reader)
+//@   modifies sw.buffer, rpos(sw.reader)
+//@   alloc[C13] n <= 1048576
+//@   ensures(namelen) err == nil ==> len(result.Name) == int64(length)
+//@   ensures(name) err == nil ==> forall(k, 0, int64(length), result.Name[k] == rin(sw.reader)[p0 + k])
+//@   ensures(type) err == nil ==> result.Type == int8(rin(sw.reader)[p0 + int64(length)])
+//@   ensures(pos) err == nil ==> rpos(sw.reader) == p0 + int64(length) + 1
+//@   ensures(mono) rpos(sw.reader) >= p0
+//@   ensures(valid) validSR(sw)
+
+//@ contract (*StreamReader).ReadEnvelopeBegin
+//@   props C12
+//@   nopanic
+//@   requires validSR(sw)
+//@   let p0 = rpos(sw.reader)
+//@   let v = int32(be32at(rin(sw.reader), rpos(sw.reader)))
+//@   let n = int64(int32(be32at(rin(sw.reader), rpos(sw.reader) + 4)))
+//@   modifies sw.buffer, rpos(sw.reader)
+//@   ensures(strict) err == nil && v <= 0 ==> uint32(v) & 4294901760 == 2147549184 && result.Type == int8(v) && len(result.Name) == n && n >= 0 && result.SeqID == int32(be32at(rin(sw.reader), p0 + 8 + n)) && rpos(sw.reader) == p0 + 12 + n
+//@   ensures(strictname) err == nil && v <= 0 ==> forall(k, 0, len(result.Name), result.Name[k] == rin(sw.reader)[p0 + 8 + k])
+//@   ensures(legacy) err == nil && v > 0 ==> len(result.Name) == int64(v) && result.Type == int8(rin(sw.reader)[p0 + 4 + int64(v)]) && result.SeqID == int32(be32at(rin(sw.reader), p0 + 5 + int64(v))) && rpos(sw.reader) == p0 + 9 + int64(v)
+//@   ensures(legacyname) err == nil && v > 0 ==> forall(k, 0, len(result.Name), result.Name[k] == rin(sw.reader)[p0 + 4 + k])
+//@   ensures(mono) rpos(sw.reader) >= p0
+//@   ensures(valid) validSR(sw)
